@@ -72,6 +72,16 @@ RecVals ==
   IN {[class |-> c, owner |-> o, ttl |-> l, code |-> CodeOf(d.t), t |-> d.t, val |-> d.val] :
         c \in {1, 3}, o \in {<<la>>, <<lA>>, <<lb, la>>}, l \in {0, 3600}, d \in datas}
 
+\* records across representations of their data (Order.tla, DataReps): the
+\* grid of RecVals restricted to one TTL (plus a TTL-only variation) and, in
+\* the quick tier, class 3 at one owner only.  xans: what a record data type
+\* outside the library answers for two values of different types
+XRecVals == {r \in RecVals :
+               /\ (r.ttl = 3600 \/ (r.t = "A" /\ r.val = Base("A")))
+               /\ (Tier = 2 \/ r.class = 1 \/ r.owner = <<la>>)}
+XReps == {[rep |-> "all", xans |-> 0], [rep |-> "zone", xans |-> 0], [rep |-> "unknown", xans |-> 0],
+          [rep |-> "ext", xans |-> -1], [rep |-> "ext", xans |-> 0], [rep |-> "ext", xans |-> 1]}
+
 --------------------------------------------------------------------------
 (* carriers (Order.tla): every supported shape of holding a name, cut at    *)
 (* label positions j <= k                                                   *)
@@ -193,6 +203,9 @@ InitBase ==
   \/ kind = "charstr" /\ t = "" /\ a \in CharStrs /\ b \in CharStrs
   \/ kind = "rdata"   /\ t \in Types /\ a \in RdVals(t) /\ b \in RdVals(t)
   \/ kind = "record"  /\ t = "" /\ a \in RecVals /\ b \in RecVals
+InitReps ==
+  \* two records, their data held in representation t.rep on both sides
+  \/ kind = "xrecord" /\ t \in XReps /\ a \in XRecVals /\ b \in XRecVals
 InitCarriers ==
   \* a name and one of its carriers
   \/ kind = "carrier" /\ t = "" /\ a \in CNames /\ b \in CarriersOf(a)
@@ -206,10 +219,11 @@ InitCarriers ==
   \* a record with owner and data names in carriers, against a flat record
   \/ kind = "crecord" /\ t = "" /\ \E r, s \in CrecVals : \E c \in CrecCarriers(r) :
                                        a = [r |-> r, oc |-> c.oc, cs |-> c.cs] /\ b = s
-Init == InitBase \/ InitCarriers
+Init == InitBase \/ InitReps \/ InitCarriers
 Next == FALSE /\ UNCHANGED vars
 Spec == Init /\ [][Next]_vars
 SpecCarriers == InitCarriers /\ [][Next]_vars        \* the carrier part alone (MC_Order_mut*.cfg)
+SpecReps == InitReps /\ [][Next]_vars                \* the representation part alone (MC_Order_mut4.cfg)
 
 --------------------------------------------------------------------------
 (* the laws, on the specification's own operators *)
@@ -267,6 +281,16 @@ LawRecord == kind = "record" =>
   /\ (RecCanonPinned(a, b) => RecCanonCmp(a, b) = Neg(RecCanonCmp(b, a)))
   /\ (RecCanonPinned(a, b) /\ RecCanonCmp(a, b) = 0 => RecEqCore(a, b))
   /\ (RecCanonPinned(a, b) => IsSign(RecCanonCmp(a, b)))
+
+\* the order of records does not depend on what their data type answers
+\* across types, and is that of the flat reading
+LawRecRep == kind = "xrecord" =>
+  /\ t.rep \in DataReps /\ IsSign(t.xans)
+  /\ RecRepLawM(t.rep, t.xans, a, b, Mut)
+  /\ IsSign(DataCanonAns(t.rep, t.xans, a, b))
+  /\ DataCanonAns(t.rep, t.xans, a, b) = Neg(DataCanonAns(t.rep, t.xans, b, a))
+  /\ (RecCanonPinned(a, b) => RecRepCanonCmp(t.rep, a, b) = Neg(RecRepCanonCmp(t.rep, b, a)))
+  /\ (RecCanonPinned(a, b) /\ RecRepCanonCmp(t.rep, a, b) = 0 => RecSameKey(a, b) /\ RepRdEq(t.rep, a, b))
 
 \* representation independence: whatever the carrier, the operators give what
 \* they give for the denoted name
@@ -335,6 +359,13 @@ EmitRecord == kind = "record" =>
                                     eqfree |-> RecEqFree(a, b),
                                     canonfree |-> ~RecCanonPinned(a, b)],
                             exp |-> RecExp(a, b), dev |-> RecDev(a, b)]))
+
+EmitXRecord == kind = "xrecord" =>
+  PrintT("CASE " \o ToJson([in |-> [kind |-> kind, rep |-> t.rep, xans |-> t.xans,
+                                    a |-> RecIn(a), b |-> RecIn(b),
+                                    eqfree |-> RecEqFree(a, b),
+                                    canonfree |-> ~RecCanonPinned(a, b)],
+                            exp |-> XrecExp(t.rep, a, b)]))
 
 EmitCarrier == kind = "carrier" =>
   PrintT("CASE " \o ToJson([in |-> [kind |-> kind, c |-> b], exp |-> NameObs(a)]))
